@@ -61,7 +61,11 @@ type World struct {
 	OpLog       []string                                            // operations actually performed (kind path), for conformance
 	LogOps      bool
 	FdCreates   int // number of descriptor-creating calls so far (for exhaustion windows)
-	CoarseReads bool // read-only operations (lstat, stat, open for reading, read, opendir) are not scheduling points
+	// OverflowReports: a watcher's reader may report a kernel queue overflow (ErrEventOverflow on
+	// the Errors channel) before it hands over its first event: the aftermath of an earlier burst
+	// whose net effect on the directories is nil. One environment answer (fault) per watcher.
+	OverflowReports bool
+	CoarseReads     bool // read-only operations (lstat, stat, open for reading, read, opendir) are not scheduling points
 	LiveWatchers int
 }
 
